@@ -295,6 +295,38 @@ def check_case(case, ctx):
                 nder += 1
         if nder:
             n_derived_checked_rounds += 1
+        # -- the dual tables of every leaf function are those of the latest solve ----------------------------------
+        from PEPit import Function, Constraint
+        for f in Function.list_of_functions:
+            if not f.get_is_leaf():
+                continue
+            try:
+                duals = f.get_class_constraints_duals()
+                tables = f.tables_of_constraints
+            except Exception:  # noqa  (whether the accessor works at all is C17's subject)
+                ctx.label("dual-tables:accessor-raises")
+                continue
+            stale = None
+            for key, tab in tables.items():
+                if key not in duals or not hasattr(tab, "values") or not hasattr(duals[key], "values"):
+                    continue
+                tv, dv = tab.values, duals[key].values
+                if tv.shape != dv.shape:
+                    continue
+                for a in range(tv.shape[0]):
+                    for b in range(tv.shape[1]):
+                        if isinstance(tv[a, b], Constraint):
+                            try:
+                                now = tv[a, b].eval_dual()
+                            except ValueError:
+                                continue
+                            if abs(float(dv[a, b]) - float(now)) > 1e-12 * (1 + abs(float(now))):
+                                stale = (key, a, b, float(dv[a, b]), float(now))
+            if stale:
+                ctx.fail("dual-table-not-of-latest-solve", "round %d: dual table %r cell (%d,%d) reads %.6g, the constraint of that "
+                         "cell has multiplier %.6g after the latest solve" % ((r,) + stale))
+                break
+            ctx.label("dual-tables:checked")
         # -- certificate of the latest solve ---------------------------------------------------------------------
         cert = oracles.certificate(pep, ob.sent_constraints, ob.sent_lmis)
         if "shape_error" in cert:
